@@ -179,6 +179,11 @@ def foldRanks {β : Type} (op : β → β → β) : List β → Option β
 def allreduceVal (e n : Nat) (op : List α → List α → List α) (ins : List (List α)) : List α :=
   (List.range n).flatMap (fun j => ((foldRanks op (ins.map (elem e j))).getD []))
 
+/-- the rank-order fold of one cell with a functor on cells (`none` if a rank has no such cell, or there is no rank) -/
+def foldCells (f : α → α → α) : List (Option α) → Option α
+  | [] => none
+  | x :: xs => xs.foldl (fun a y => match a, y with | some a, some b => some (f a b) | _, _ => none) x
+
 /-- the result written over the first `n` elements of each rank's out buffer -/
 def allreduce (e n : Nat) (op : List α → List α → List α) (ins outs : List (List α)) : List (List α) :=
   let v := allreduceVal e n op ins
